@@ -43,7 +43,7 @@ def parser_obj(ip, cls=ClientFrameParser, frame_class=Frame, name='parser'):
     return p, v
 
 
-@contract('lomond.frame_parser.FrameParser.parse', serves=['C01', 'C02', 'C04', 'C05', 'C10'])
+@contract('lomond.frame_parser.FrameParser.parse', serves=['C01', 'C02', 'C04', 'C05', 'C10', 'C14'])
 class Parse(ProducerContract):
     coroutine = True
 
@@ -134,15 +134,15 @@ class Parse(ProducerContract):
             comp = st.get(a.self, '_compression')
             comp = BoolVal(comp) if isinstance(comp, bool) else comp
             if k == 6:
-                out.append(('validated-read-only-for-text-payloads', textual, ('C05',)))
+                out.append(('validated-read-only-for-text-payloads', textual, ('C01', 'C04', 'C05', 'C14')))
                 if cls is P._ReadUtf8:
-                    out.append(('validated-read-uses-the-parsers-validator', BoolVal(st.get(aw, 'utf8_validator') == st.get(a.self, '_utf8_validator')), ('C05',)))
+                    out.append(('validated-read-uses-the-parsers-validator', BoolVal(st.get(aw, 'utf8_validator') == st.get(a.self, '_utf8_validator')), ('C01', 'C04', 'C05')))
                     out.append(('no-validation-of-compressed-bytes', Not(comp), ('C05', 'C06')))
-                    out.append(('validator-has-not-rejected', iv(st.get(st.get(a.self, '_utf8_validator'), '_state')) != 1, ('C05',)))
+                    out.append(('validator-has-not-rejected', iv(st.get(st.get(a.self, '_utf8_validator'), '_state')) != 1, ('C01', 'C04', 'C05')))
                 else:
                     out.append(('unvalidated-text-read-only-under-compression', comp, ('C05', 'C06')))
             else:
-                out.append(('plain-read-only-for-non-text-payloads', Not(textual), ('C05',)))
+                out.append(('plain-read-only-for-non-text-payloads', Not(textual), ('C01', 'C04', 'C05', 'C14')))
                 out.append(('plain-read-is-unvalidated', BoolVal(cls is P._ReadBytes)))
         return out
 
@@ -232,7 +232,7 @@ class Parse(ProducerContract):
         acceptable from a server, and the text bookkeeping is updated"""
         st = ip.st
         ok = isinstance(f, ORef) and issubclass(st.obj(f).cls, Frame)
-        st.oblige('yield8:yields-a-Frame', BoolVal(ok), tags=('C01',))
+        st.oblige('yield8:yields-a-Frame', BoolVal(ok), tags=('C01', 'C04', 'C14'))
         if not ok:
             raise PathEnd('not a frame')
         d = self.decode_iter(ip)
@@ -244,12 +244,12 @@ class Parse(ProducerContract):
         m = g('mask')
         fields.append(('mask-flag', (BoolVal(m) if isinstance(m, bool) else m) == (d.mask == 1)))
         for n, fm in fields:
-            st.oblige('yield8:frame-is-the-decoding-of-the-bytes-received:%s' % n, fm, tags=('C01',))
+            st.oblige('yield8:frame-is-the-decoding-of-the-bytes-received:%s' % n, fm, tags=('C01', 'C04', 'C14'))
         p = g('payload')
         pb = ip.bytes_of(p) if ip.is_byteslike(p) else None
-        st.oblige('yield8:payload-length-as-declared', BoolVal(pb is not None) if pb is None else pb.n == d.plen, tags=('C01',))
+        st.oblige('yield8:payload-length-as-declared', BoolVal(pb is not None) if pb is None else pb.n == d.plen, tags=('C01', 'C04', 'C14'))
         if pb is not None:
-            st.oblige('yield8:payload-bytes-are-the-bytes-received', beq(pb, d.payload), tags=('C01',))
+            st.oblige('yield8:payload-bytes-are-the-bytes-received', beq(pb, d.payload), tags=('C01', 'C05', 'C14'))
         comp = st.get(a.self, '_compression')
         comp = BoolVal(comp) if isinstance(comp, bool) else comp
         client = issubclass(st.obj(a.self).cls, ClientFrameParser)
@@ -260,15 +260,15 @@ class Parse(ProducerContract):
         is_data = d.opcode < 8
         new_to = If(d.opcode == 1, d.fin == 0, If(And(is_data, d.fin == 1), BoolVal(False), to))
         st.ghost['text_open'] = new_to
-        st.oblige('yield8:is_text-flag-means-a-text-message-is-open', st.get(a.self, '_is_text') == new_to, tags=('C05',))
+        st.oblige('yield8:is_text-flag-means-a-text-message-is-open', st.get(a.self, '_is_text') == new_to, tags=('C01', 'C04', 'C05', 'C14'))
         val = st.get(a.self, '_utf8_validator')
         # the incremental validator carries the state of the open text message across frames: it may
         # be restarted only by the frame that ends a data message, never by a control frame or a
         # non-final fragment (else the verdict would depend on how the text was split - C05)
         st.oblige('yield8:validator-state-carried-across-frames(reset only when a data message ends)',
-                  Or(iv(st.get(val, '_state')) == st.ghost['vstate_iter'], And(Not(comp), d.fin == 1, d.opcode < 8)), tags=('C05', 'C02'))
+                  Or(iv(st.get(val, '_state')) == st.ghost['vstate_iter'], And(Not(comp), d.fin == 1, d.opcode < 8)), tags=('C01', 'C02', 'C04', 'C05'))
         st.oblige('yield8:validator-restarts-when-a-text-message-completes',
-                  Implies(And(Not(comp), to if False else Or(d.opcode == 1, And(d.opcode == 0, to)), d.fin == 1), iv(st.get(val, '_state')) == 0), tags=('C05',))
+                  Implies(And(Not(comp), to if False else Or(d.opcode == 1, And(d.opcode == 0, to)), d.fin == 1), iv(st.get(val, '_state')) == 0), tags=('C01', 'C05'))
 
     # ---------------------------------------------------------------- exits
     def check_exit(self, ip, a, old, kind, res):
@@ -294,7 +294,7 @@ class Parse(ProducerContract):
             comp = BoolVal(comp) if isinstance(comp, bool) else comp
             client = issubclass(st.obj(a.self).cls, ClientFrameParser)
             valid = rfc6455.valid_server_header(d.fin, d.rsv1, d.rsv2, d.rsv3, d.opcode, d.mask if client else IntVal(0), d.plen, comp)
-            st.oblige('raises-ProtocolError-only-for-an-unacceptable-header', Not(valid), tags=('C04',))
+            st.oblige('raises-ProtocolError-only-for-an-unacceptable-header', Not(valid), tags=('C01', 'C04', 'C14'))
             early = Or(Or(*[d.opcode == r for r in rfc6455.RESERVED_OPCODES]), d.rsv2 != 0, d.rsv3 != 0, And(d.rsv1 != 0, Not(comp)),
                        And(d.opcode >= 8, d.fin == 0), And(d.opcode >= 8, d.plen > 125), d.plen >= 2 ** 63)
             st.oblige('header-violations-rejected-before-any-payload-byte-is-requested', Implies(early, BoolVal('rpay' not in it)), tags=('C04',))
@@ -314,7 +314,7 @@ class Parse(ProducerContract):
             comp = st.get(a.self, '_compression')
             comp = BoolVal(comp) if isinstance(comp, bool) else comp
             fc = st.get(a.self, '_frame_class')
-            return [('is_text-flag-means-a-text-message-is-open', st.get(a.self, '_is_text') == st.ghost['text_open'], ('C05',)),
+            return [('is_text-flag-means-a-text-message-is-open', st.get(a.self, '_is_text') == st.ghost['text_open'], ('C01', 'C04', 'C05', 'C14')),
                     ('compressed-frame-class-iff-compression', comp == BoolVal(fc is CompressedFrame), ('C06',)),
                     ('validator-in-a-live-state', And(iv(st.get(val, '_state')) >= 0, iv(st.get(val, '_state')) <= 8, iv(st.get(val, '_state')) != 1))]
 
